@@ -206,6 +206,7 @@ Record c11_req := {
 Record c11_obj := {
   ob_id : nat;                       (* index of the request that created the object *)
   ob_kind : c11_kind;                (* _coordinates *)
+  ob_n : c11_kind;                   (* the kind whose element count _n_elements holds (bound for k) *)
   ob_sys : c11_system; ob_metric : c11_metric; ob_reconstruct : bool;
   ob_nodes : option (c11_system * c11_metric);
   ob_faces : option (c11_system * c11_metric);
@@ -220,26 +221,26 @@ Definition c11_build_slot (o : c11_obj) (k : c11_kind) : c11_obj :=
   let upd (cur : option (c11_system * c11_metric)) :=
       match cur with None => fresh | Some v => if ob_reconstruct o then fresh else Some v end in
   match k with
-  | C11Nodes => {| ob_id := ob_id o; ob_kind := ob_kind o; ob_sys := ob_sys o; ob_metric := ob_metric o;
+  | C11Nodes => {| ob_id := ob_id o; ob_kind := ob_kind o; ob_n := ob_n o; ob_sys := ob_sys o; ob_metric := ob_metric o;
                    ob_reconstruct := ob_reconstruct o;
                    ob_nodes := upd (ob_nodes o); ob_faces := ob_faces o; ob_edges := ob_edges o |}
-  | C11Faces => {| ob_id := ob_id o; ob_kind := ob_kind o; ob_sys := ob_sys o; ob_metric := ob_metric o;
+  | C11Faces => {| ob_id := ob_id o; ob_kind := ob_kind o; ob_n := ob_n o; ob_sys := ob_sys o; ob_metric := ob_metric o;
                    ob_reconstruct := ob_reconstruct o;
                    ob_nodes := ob_nodes o; ob_faces := upd (ob_faces o); ob_edges := ob_edges o |}
-  | C11Edges => {| ob_id := ob_id o; ob_kind := ob_kind o; ob_sys := ob_sys o; ob_metric := ob_metric o;
+  | C11Edges => {| ob_id := ob_id o; ob_kind := ob_kind o; ob_n := ob_n o; ob_sys := ob_sys o; ob_metric := ob_metric o;
                    ob_reconstruct := ob_reconstruct o;
                    ob_nodes := ob_nodes o; ob_faces := ob_faces o; ob_edges := upd (ob_edges o) |}
   end.
 
 (* __init__ *)
 Definition c11_new_obj (id : nat) (r : c11_req) : c11_obj :=
-  c11_build_slot {| ob_id := id; ob_kind := rq_kind r; ob_sys := rq_sys r; ob_metric := rq_metric r;
+  c11_build_slot {| ob_id := id; ob_kind := rq_kind r; ob_n := rq_kind r; ob_sys := rq_sys r; ob_metric := rq_metric r;
                     ob_reconstruct := rq_reconstruct r;
                     ob_nodes := None; ob_faces := None; ob_edges := None |} (rq_kind r).
 
-(* coordinates setter *)
+(* coordinates setter: (re)builds the slot when needed and ALWAYS refreshes _n_elements *)
 Definition c11_set_kind (o : c11_obj) (k : c11_kind) : c11_obj :=
-  c11_build_slot {| ob_id := ob_id o; ob_kind := k; ob_sys := ob_sys o; ob_metric := ob_metric o;
+  c11_build_slot {| ob_id := ob_id o; ob_kind := k; ob_n := k; ob_sys := ob_sys o; ob_metric := ob_metric o;
                     ob_reconstruct := ob_reconstruct o;
                     ob_nodes := ob_nodes o; ob_faces := ob_faces o; ob_edges := ob_edges o |} k.
 
